@@ -45,12 +45,14 @@ type kernelPort struct {
 	run           int
 	sendErrno     []int // errno for the n-th sendto (0 = ok)
 	sends         int
+	sendFailed    int
 }
 
 func (p *kernelPort) doSend(wire []byte, dstPid uint32) int {
 	n := p.sends
 	p.sends++
 	if n < len(p.sendErrno) && p.sendErrno[n] != 0 {
+		p.sendFailed++
 		return p.sendErrno[n]
 	}
 	return p.k.Sendto(wire, dstPid)
